@@ -1,25 +1,43 @@
 ---------------------------- MODULE Compress ----------------------------
-EXTENDS Naturals, Sequences, FiniteSets, TLC, Json
-CONSTANTS MaxItems, MaxOut
-\* literal table of the format: code k (1..59) -> byte; code 0 is the escape marker
+(* The PICO-8 `:c:` code compression format as a machine, written from the format description:
+   stream byte 0x00 b = escaped literal b; 0x01..0x3b = literal from the 59-entry table;
+   b1 >= 0x3c, b2 = copy of len = (b2 >> 4) + 2 bytes from offset = (b1 - 0x3c) * 16 + (b2 & 15)
+   bytes back, copied byte by byte (so a block may overlap its own output).
+   Well-formed: 1 <= offset <= bytes produced so far, 3 <= len <= 17.
+   This module is the GENERATOR (pipeline A for the decoder side of C05): from a literal seed
+   prefix it produces well-formed streams item by item; Mode "exhaustive" takes every literal of
+   LitBytes and every (offset, len) of the edge-focused sets, Mode "random" takes one random item
+   per step (long streams reaching the window edge). *)
+EXTENDS Integers, Sequences, FiniteSets, TLC, Json
+CONSTANTS MaxItems, MaxOut, Mode, NSeq
 TableStr == <<10, 32, 48,49,50,51,52,53,54,55,56,57, 97,98,99,100,101,102,103,104,105,106,107,108,109,110,
               111,112,113,114,115,116,117,118,119,120,121,122, 33,35,37,40,41,123,125,91,93,60,62,43,61,47,42,58,59,46,44,126,95>>
 Code(b) == IF \E k \in 1..Len(TableStr) : TableStr[k] = b THEN CHOOSE k \in 1..Len(TableStr) : TableStr[k] = b ELSE 0
-LitBytes == {97, 98, 10, 233}
-VARIABLES out, stream, n
-vars == <<out, stream, n>>
-Init == out = <<>> /\ stream = <<>> /\ n = 0
+LitBytes == {97, 10, 233}
+Seed == <<120, 61, 49, 50, 51, 10, 102, 111, 111, 40, 41, 32, 98, 97, 114, 10, 233, 121, 61, 122>>   \* "x=123\nfoo() bar\n\xe9y=z"
+RECURSIVE LitStream(_)
+LitStream(t) == IF t = <<>> THEN <<>> ELSE (IF Code(Head(t)) = 0 THEN <<0, Head(t)>> ELSE <<Code(Head(t))>>) \o LitStream(Tail(t))
+VARIABLES out, stream, n, sid
+vars == <<out, stream, n, sid>>
+Init == out = Seed /\ stream = LitStream(Seed) /\ n = 0 /\ sid \in 1..NSeq
 RECURSIVE CopyBytes(_, _, _)      \* byte-wise, so overlapping references repeat the pattern
 CopyBytes(o, off, len) == IF len = 0 THEN o ELSE CopyBytes(Append(o, o[Len(o) - off + 1]), off, len - 1)
-Lit(b) == Code(b) # 0 /\ out' = Append(out, b) /\ stream' = Append(stream, Code(b))
-Esc(b) == Code(b) = 0 /\ out' = Append(out, b) /\ stream' = stream \o <<0, b>>
-Copy(off, len) == /\ off >= 1 /\ off <= Len(out) /\ len >= 3 /\ len <= 17
-                  /\ out' = CopyBytes(out, off, len)
-                  /\ stream' = stream \o << (off \div 16) + 60, (off % 16) + (len - 2) * 16 >>
-Next == /\ n < MaxItems /\ n' = n + 1
-        /\ \/ \E b \in LitBytes : Lit(b) \/ Esc(b)
-           \/ \E off \in 1..Len(out), len \in 3..17 : Copy(off, len)
+LitItem(b) == [k |-> "lit", b |-> b]
+CopyItem(off, len) == [k |-> "copy", off |-> off, len |-> len]
+Offsets(o) == ({1, 2, 3, 4, 16, 17, 18, Len(o) - 1, Len(o)} \cup {3119, 3120, 3121, 3134, 3135}) \cap (1..(IF Len(o) < 3135 THEN Len(o) ELSE 3135))
+Lens(off) == ({3, 4, 16, 17} \cup {off - 1, off, off + 1}) \cap (3..17)
+Items(o) == {LitItem(b) : b \in LitBytes} \cup {CopyItem(off, len) : off \in Offsets(o), len \in 3..17}
+ItemsEdge(o) == {LitItem(b) : b \in LitBytes} \cup UNION {{CopyItem(off, len) : len \in Lens(off)} : off \in Offsets(o)}
+Apply(it) ==
+  IF it.k = "lit" THEN /\ out' = Append(out, it.b)
+                       /\ stream' = stream \o (IF Code(it.b) = 0 THEN <<0, it.b>> ELSE <<Code(it.b)>>)
+  ELSE /\ out' = CopyBytes(out, it.off, it.len)
+       /\ stream' = stream \o << (it.off \div 16) + 60, (it.off % 16) + (it.len - 2) * 16 >>
+Next == /\ n < MaxItems /\ n' = n + 1 /\ sid' = sid
+        /\ IF Mode = "random"
+           THEN \E it \in {RandomElement(IF n % 5 = 4 THEN ItemsEdge(out) ELSE {CopyItem(off, 17) : off \in {1, 5, IF Len(out) < 3135 THEN Len(out) ELSE 3135}})} : Apply(it)
+           ELSE \E it \in ItemsEdge(out) : Apply(it)
         /\ Len(out') <= MaxOut
 Spec == Init /\ [][Next]_vars
-Emit == PrintT(ToJson([stream |-> stream, out |-> out]))
+Emit == (IF Mode = "random" THEN n = MaxItems ELSE n > 0) => PrintT(ToJson([stream |-> stream, out |-> out]))
 =============================================================================
